@@ -200,30 +200,70 @@ def bool_origin(du, l, depth=12):
 
 def outcome_on_path(body, du, path, call_bid):
     """The boolean result the call at block `call_bid` must have had for control to follow `path` (True/False), read
-    off the switch that tests it further along the path; None when the path does not branch on it."""
+    off the switch that tests it further along the path; None when the path does not branch on it.  The value is
+    followed ALONG THE PATH through copies and `!` (so `let c = a() || b(); if !c {..}` is understood on each of its
+    paths: the local `c` has several definitions, only one of which lies on the path)."""
+    path = list(path)
     if call_bid not in path:
         return None
     i = path.index(call_bid)
-    for j in range(i + 1, len(path) - 1):
-        t = body.blocks[path[j]]["term"]
-        if t["k"] != "switch" or t.get("dty") != "bool" or op_local(t["discr"]) is None or t["discr"]["p"]["proj"]:
-            continue
-        o = bool_origin(du, op_local(t["discr"]))
-        if o is None or o[0] != call_bid:
-            continue
-        nxt = path[j + 1]
-        ones = [bb for v, bb in t["targets"] if int(v) == 1]
-        zeros = [bb for v, bb in t["targets"] if int(v) == 0]
-        if nxt in ones:
-            val = True
-        elif nxt in zeros:
-            val = False
-        elif nxt == t.get("otherwise") and bool(zeros) != bool(ones):
-            val = bool(zeros)      # the otherwise edge of a bool switch that lists only 0 is the `true` edge, and vice versa
-        else:
-            return None
-        return (not val) if o[1] else val
+    t0 = body.blocks[call_bid]["term"]
+    if t0["k"] != "call" or t0["dest"]["proj"]:
+        return None
+    prov = {t0["dest"]["l"]: False}      # local -> negated?
+    for j in range(i + 1, len(path)):
+        blk = body.blocks[path[j]]
+        for s in blk["stmts"]:
+            if s["k"] != "assign":
+                continue
+            l = s["lhs"]["l"]
+            if s["lhs"]["proj"]:
+                continue
+            rv = s["rhs"]
+            src = rv["a"]["p"]["l"] if rv["k"] in ("use", "unop") and rv.get("a") and rv["a"]["k"] in ("copy", "move") and not rv["a"]["p"]["proj"] else None
+            if rv["k"] == "use" and src in prov:
+                prov[l] = prov[src]
+            elif rv["k"] == "unop" and rv["op"] == "Not" and src in prov:
+                prov[l] = not prov[src]
+            else:
+                prov.pop(l, None)
+        t = blk["term"]
+        if t["k"] == "switch" and t.get("dty") == "bool" and op_local(t["discr"]) in prov and not t["discr"]["p"]["proj"] and j + 1 < len(path):
+            nxt = path[j + 1]
+            ones = [bb for v, bb in t["targets"] if int(v) == 1]
+            zeros = [bb for v, bb in t["targets"] if int(v) == 0]
+            if nxt in ones:
+                val = True
+            elif nxt in zeros:
+                val = False
+            elif nxt == t.get("otherwise") and bool(zeros) != bool(ones):
+                val = bool(zeros)      # the otherwise edge of a bool switch that lists only 0 is the `true` edge, and vice versa
+            else:
+                return None
+            return (not val) if prov[op_local(t["discr"])] else val
+        if t["k"] == "call" and not t["dest"]["proj"]:
+            prov.pop(t["dest"]["l"], None)
     return None
+
+
+def int_facts(conds, is_who):
+    """What a path's conditions say about one integer operand (is_who(descr) -> bool picks it): (eq, ne) -- the set of
+    constants it was found equal to and the set it was found different from -- whether the author wrote a `match`
+    (an integer switch), an `if a == K {..} else if ..` chain, `K != a`, or a negated form."""
+    eq, ne = set(), set()
+    for cd in conds:
+        if cd[0] == "int" and is_who(cd[1]):
+            if isinstance(cd[2], tuple) and cd[2] and cd[2][0] == "not":
+                ne.update(str(v) for v in cd[2][1])
+            else:
+                eq.add(str(cd[2]))
+        elif cd[0] == "bool" and isinstance(cd[1], tuple) and cd[1] and cd[1][0] == "cmp" and cd[1][1] in ("Eq", "Ne"):
+            a, b_ = cd[1][2], cd[1][3]
+            for (u, v) in ((a, b_), (b_, a)):
+                if isinstance(u, tuple) and u and u[0] == "const" and is_who(v):
+                    val = cd[2] if cd[1][1] == "Eq" else (not cd[2])
+                    (eq if val else ne).add(str(u[1]))
+    return eq, ne
 
 
 def switch_test(body, du, bid):
@@ -315,6 +355,8 @@ class PathWalker:
                 src = rv["a"]["p"]["l"] if rv["k"] in ("use", "unop") and rv.get("a") and rv["a"]["k"] in ("copy", "move") and not rv["a"]["p"]["proj"] else None
                 if rv["k"] == "use" and rv["a"]["k"] == "const" and rv["a"].get("ty") == "bool" and "v" in rv["a"]:
                     envd[l] = int(rv["a"]["v"])
+                elif rv["k"] == "unop" and rv["op"] == "Not" and rv["a"]["k"] == "const" and rv["a"].get("ty") == "bool" and "v" in rv["a"]:
+                    envd[l] = 1 - int(rv["a"]["v"])        # `!cfg!(..)`: the negation of a compile-time constant
                 elif rv["k"] == "use" and src is not None and src in envd:
                     envd[l] = envd[src]
                 elif rv["k"] == "unop" and rv["op"] == "Not" and src is not None and isinstance(envd.get(src), int) and self.body.locals[l] == "bool":
